@@ -11,7 +11,7 @@ func init() {
 		Trusted:     []string{"go/types, go/cfg (x/tools v0.50.0)"},
 		Level:       "Sound static check of the structural clause: no storage error is dropped and nothing is granted on any storage call's error edge, for every call site in pkg/op. Whether the response is well-formed on that edge is C09's typestate; status codes are not decided.",
 		Note:        "Trusted: go/types+go/cfg. Grant sinks and the two reviewed fall-backs are tables in the checker.",
-		Technique:   "static analysis: per-call-site error-edge reachability on the path-sensitive must-facts dataflow (go/cfg), storage calls resolved via go/types interface method identity",
+		Technique:   "static analysis: per-call-site error-edge reachability on the path-sensitive must-facts dataflow (go/cfg), storage calls resolved via go/types interface method identity, named-result rule for deferred closures",
 		Rules:       []string{"E5.R-storage", "E5.R-discard", "E5.R-examined"},
 		Floors:      []Floor{{"E5.R-storage", 40}},
 		Run: func(c *Ctx) {
